@@ -439,6 +439,9 @@ class Respondent(httping.Parsent):
                     break
                 (yield None)
 
+            # closed above so need new one for status line that follows the 100 continue
+            lineParser = httping.parseLine(raw=self.msg, eols=(CRLF, LF), kind="status line")
+
         self.code = self.status = status
         self.reason = reason.strip()
         if version in ("HTTP/1.0", "HTTP/0.9"):
